@@ -632,6 +632,55 @@ pub fn run(ctx: &Ctx) -> Finish {
             }
         });
     }
+    // id extremes: 0, an id above 2^32 next to its low 32 bits, u64::MAX - every impl on every pair of a
+    // small pool per kind (ids are opaque 64-bit numbers; nothing may depend on their size)
+    {
+        let e = (1u64 << 32) + 3;
+        let mx = u64::MAX;
+        let lins = vec![FnRep::Lin { terms: vec![(e, 1.0), (3, 2.0)], c: 1.0 }, FnRep::Lin { terms: vec![(mx, 1.0), (0, -1.0)], c: 0.0 }];
+        let quads = vec![
+            FnRep::Quad { entries: vec![(3, e, 1.0), (e, e, -0.5)], lin: Some((vec![(0, 1.0)], 0.5)) },
+            FnRep::Quad { entries: vec![(e, 3, 2.0), (mx, 0, 1.0)], lin: None },
+            FnRep::Quad { entries: vec![(3, 3, 1.0), (0, mx, -1.0)], lin: Some((vec![(e, 2.0), (3, 1.0)], 0.0)) },
+        ];
+        let pols = vec![
+            FnRep::Poly { terms: vec![(vec![e, 3, 0], 1.0), (vec![mx], -1.0)] },
+            FnRep::Poly { terms: vec![(vec![3, e], 0.5), (vec![], 2.0), (vec![e, 3], 1.0)] },
+        ];
+        let mut ext: std::collections::BTreeMap<Kind, Vec<Opd>> = std::collections::BTreeMap::new();
+        ext.insert(Kind::Num, vec![Opd::Num(-1.0), Opd::Num(0.5)]);
+        ext.insert(Kind::Dv, vec![Opd::Dv(0), Opd::Dv(e), Opd::Dv(mx), Opd::Dv(3)]);
+        ext.insert(Kind::Par, vec![Opd::Par(e), Opd::Par(mx), Opd::Par(0)]);
+        let mut funs: Vec<Opd> = vec![Opd::Fun(FnRep::Const(2.0))];
+        funs.extend(lins.iter().chain(quads.iter()).chain(pols.iter()).cloned().map(Opd::Fun));
+        ext.insert(Kind::Lin, lins.into_iter().map(Opd::Lin).collect());
+        ext.insert(Kind::Quad, quads.into_iter().map(Opd::Quad).collect());
+        ext.insert(Kind::Pol, pols.into_iter().map(Opd::Pol).collect());
+        ext.insert(Kind::Fun, funs);
+        ctx.seq(|l| {
+            for im in table.iter() {
+                for a in &ext[&im.lk] {
+                    match im.rk {
+                        None => {
+                            l.states += 1;
+                            check_case(l, &table, &Case::Op { name: im.name.to_string(), a: a.clone(), b: None });
+                        }
+                        Some(rk) => {
+                            for b in &ext[&rk] {
+                                l.states += 1;
+                                check_case(l, &table, &Case::Op { name: im.name.to_string(), a: a.clone(), b: Some(b.clone()) });
+                            }
+                        }
+                    }
+                }
+            }
+            for k in [Kind::Lin, Kind::Quad, Kind::Pol, Kind::Fun] {
+                for a in &ext[&k] {
+                    check_case(l, &table, &Case::Iter { a: a.clone() });
+                }
+            }
+        });
+    }
     // term iterators of the operands themselves
     for k in [Kind::Lin, Kind::Quad, Kind::Pol, Kind::Fun] {
         let p = &pools[&k];
@@ -657,7 +706,7 @@ pub fn run(ctx: &Ctx) -> Finish {
     let thinned = ctx.notes.lock().unwrap().keys().any(|k| k.starts_with("thinned/"));
     Finish {
         level: "model_checking",
-        rule: "every operator impl of the API (Add/Sub/Mul/Neg over f64, &DecisionVariable, &Parameter, Linear, Quadratic, Polynomial, Function; Sum/Product) x every ordered pair of operand values from closed pools (all representations: unsorted, repeated, lower/upper triangle, explicit zeros, absent linear part); result read through public fields and compared with exact polynomial arithmetic; non-trivial = both operands non-zero".into(),
+        rule: "every operator impl of the API (Add/Sub/Mul/Neg over f64, &DecisionVariable, &Parameter, Linear, Quadratic, Polynomial, Function; Sum/Product) x every ordered pair of operand values from closed pools (all representations: unsorted, repeated, lower/upper triangle, explicit zeros, absent linear part), and from a pool with id extremes (0, 2^32+3 next to 3, u64::MAX); result read through public fields and compared with exact polynomial arithmetic; non-trivial = both operands non-zero".into(),
         bounds: json!({"ids": [1,2,7], "parameter_ids": [10,2], "numbers": [0,-1,0.5,3], "terms_max": ctx.tier.pick(2,3), "fold_len_max": 3,
             "pair_cap_per_impl": cap, "note": "where a per-impl pair grid exceeds the cap the larger pool is traversed with a fixed stride (recorded under thinned/*); the run is then exhaustive over the stated sub-grid only"}),
         exhaustive: !thinned,
